@@ -1,5 +1,5 @@
 PROOF = dict(
-    name="spawn_docmd", properties=["C18"], units=["harness.c"], mode="dfcc", timeout=300, min_tagged=8,
+    name="spawn_docmd", properties=["C18", "C04"], units=["harness.c"], mode="dfcc", timeout=300, min_tagged=8,
     loops=[dict(function="docmd", head="for (i = 0;i < messid.len;++i)",
                 invariants="0 <= i && (unsigned)i <= messid.len && messid.s == mid && messid.len < 256 && g_nerr == 0 && g_errbyte == 0 && !g_opened && !g_spawned"
                            " && ((0 <= g_K && g_K < i) ==> (mid[g_K] == 0 || (mid[g_K] >= 48 && mid[g_K] <= 57) || (g_K > 0 && mid[g_K] == 47)))",
